@@ -950,7 +950,8 @@ Qed.
 
 (* a number condition the validator admits (not an existence check) carries a literal whose decimal exponent is
    within +-1000: the rescaling Decimal.Cmp performs against a contact value of exponent x costs at most
-   10^(1000 + |x|) — the evaluator cannot be made to hang by the query text *)
+   10^(1000 + |x|), where |x| <= max(1000, length of the stored text) for a contact read by flows.ReadContact — the
+   evaluator cannot be made to hang by the query text *)
 Lemma validated_number_bounded : forall e r pt key o v,
   validate_cond e r pt key o v = None -> resolve_value_type r pt key = Some FNumber ->
   ((is_eq o || is_ne o) && is_nil v = false) ->
